@@ -118,6 +118,54 @@ pub fn seg_wide() -> Vec<u32> {
     out
 }
 
+/// a feedback block WITH input skips and 5 repetitions: its backward pass adds several skip gradients into the same
+/// source - the order of those additions must not depend on anything but the network (e.g. not on hash order)
+pub fn network_skips() -> Network {
+    let mut net = Network::new(Shape::Single(5));
+    net.feedback(
+        vec![feedback::Layer::Dense(5, Activation::Tanh, true, None), feedback::Layer::Dense(5, Activation::Tanh, true, None)],
+        5,
+        true,
+        false,
+        feedback::Accumulation::Mean,
+    );
+    net.dense(2, Activation::Linear, true, None);
+    net.set_objective(Objective::MSE, None);
+    net.set_optimizer(optimizer::SGD::create(0.05, None));
+    let mut r = Mix(0xC05_5C1);
+    let fresh = neurons::verif::params(&net);
+    let filled: Vec<LayerParams> = fresh
+        .iter()
+        .map(|p| {
+            let mut q = LayerParams { weights: p.weights.iter().map(|t| refill(t, &mut r, 0.6)).collect(), bias: p.bias.as_ref().map(|t| refill(t, &mut r, 0.3)), inner: Vec::new() };
+            if !p.inner.is_empty() {
+                let len = 2;
+                let first: Vec<LayerParams> = p.inner[..len].iter().map(|x| refill_params(x, &mut r, None)).collect();
+                for i in 0..p.inner.len() {
+                    q.inner.push(first[i % len].clone());
+                }
+            }
+            q
+        })
+        .collect();
+    neurons::verif::set_params(&mut net, &filled);
+    net
+}
+
+pub fn seg_skips() -> Vec<u32> {
+    let mut net = network_skips();
+    let mut r = Mix(0x5C1);
+    let xs: Vec<Tensor> = (0..6).map(|_| Tensor::single((0..5).map(|_| r.f(1.0)).collect())).collect();
+    let ts: Vec<Tensor> = (0..6).map(|_| Tensor::single((0..2).map(|_| r.f(1.0)).collect())).collect();
+    let (xr, tr): (Vec<&Tensor>, Vec<&Tensor>) = (xs.iter().collect(), ts.iter().collect());
+    let (train, _, _) = net.learn(&xr, &tr, None, 3, 3, None);
+    let mut out: Vec<u32> = train.iter().map(|x| x.to_bits()).collect();
+    for p in neurons::verif::params(&net) {
+        param_bits(&p, &mut out);
+    }
+    out
+}
+
 pub fn samples(n: usize, salt: u64) -> (Vec<Tensor>, Vec<Tensor>) {
     let mut r = Mix(0xDA7A ^ salt);
     let xs = (0..n).map(|_| Tensor::triple(vec![(0..6).map(|_| (0..6).map(|_| r.f(1.0)).collect()).collect()])).collect();
@@ -222,7 +270,7 @@ pub fn partition(n: usize) -> Vec<Vec<usize>> {
         .collect()
 }
 
-pub const SEGMENTS: [&str; 12] = [
+pub const SEGMENTS: [&str; 13] = [
     "learn-adam-b2",
     "learn-adam-b3",
     "learn-adam-b5",
@@ -236,6 +284,7 @@ pub const SEGMENTS: [&str; 12] = [
     "learn-sgdm-b32",
     "validate-large",
     "learn-predict-wide",
+    "learn-block-inskips",
 ];
 
 pub fn run_segment(name: &str) -> Vec<u32> {
@@ -251,6 +300,7 @@ pub fn run_segment(name: &str) -> Vec<u32> {
         "validate" => seg_validate(),
         "validate-large" => seg_validate_large(),
         "learn-predict-wide" => seg_wide(),
+        "learn-block-inskips" => seg_skips(),
         "predict_batch" => seg_predict(),
         "canary" => seg_canary(),
         _ => panic!("unknown segment {}", name),
